@@ -19,6 +19,7 @@ import pyttb as ttb
 
 from .. import gen, ref
 from ..core import Abort
+from ._live import Live
 
 # --------------------------------------------------------------------------
 # operator table:  name -> (call on pyttb objects, the same NumPy operator on the expanded arrays)
@@ -342,14 +343,15 @@ def run_op(ctx, name: str, tagstr: str, fn, expect_fn, info="", split=None, unsi
         expect = expect_fn()
     if unsigned and np.any(np.asarray(expect, dtype=float) < 0):
         ctx.label("not-run:negative-result-with-unsigned-operand")
-        return
+        return None
     try:
         with ctx.sut(f"{name} [{tagstr}]"):
             R = fn()
     except Abort:
-        return
+        return None
     check_result(ctx, name, tagstr, R, expect, info, boolean=name.split("/")[0] in COMPARE + LOGIC + ("not",),
                  split=split)
+    return R
 
 
 def check_unchanged(ctx, name: str, *pairs) -> None:
@@ -495,3 +497,175 @@ def scalar_cases(tier: str):
                 for c in SCALARS:
                     yield dict(shape=list(shape), a=a, c=float(c),
                                ckind="int" if isinstance(c, int) else "float")
+
+
+# --------------------------------------------------------------------------
+# round 3: large operands (sizes above internal block thresholds).  A large case is stored in compact form
+# dict(shape, big=dict(seed, na, nb, vk, ...)) and expanded by a PRNG seeded with `seed` into an ordinary pair / scalar
+# case (Hypothesis cannot draw thousands of subscripts; the compact form also keeps replays small).
+# --------------------------------------------------------------------------
+
+# (shape, (fewest, most) stored nonzeros per operand): nnz * cells * ndims and nnz(A) * nnz(B) * ndims straddle 2**22
+BIG_SHAPES = [((12, 12, 12), (900, 1600)), ((12, 12, 12), (1100, 1600)), ((40, 45), (1200, 1750)),
+              ((6, 7, 6, 7), (800, 1600)), ((2500,), (1700, 2400)), ((30, 30, 30), (45, 200)), ((20, 21, 20), (150, 700))]
+# beyond this many cells pyttb's all-pairs row matching makes the operators whose result marks every empty position
+# quadratic in the number of cells (minutes, gigabytes): they are not run there (label not-run:quadratic-at-this-size)
+BIG_QUADRATIC_CELLS = 3000
+BIG_QUADRATIC = {"sp-sp": ("div", "eq", "le", "ge"), "sp-tn": ("ne",), "tn-sp": ()}
+
+_BIG_VALUES = {"int": [-3.0, -2.0, -1.0, 1.0, 2.0, 3.0], "set": list(VALUE_SET),
+               "half": [v / 2.0 for v in range(-6, 7) if v != 0]}
+_EXPANDED: Dict[str, dict] = {}
+
+
+def _big_value(rng, vk):
+    if vk in _BIG_VALUES:
+        return rng.choice(_BIG_VALUES[vk])
+    v = 10.0 ** rng.uniform(-3, 3) * rng.choice([-1.0, 1.0])
+    return v * {"tiny": 1e-6, "huge": 1e6}.get(vk, 1.0)
+
+
+def expand(case):
+    """the full case of a compact large case dict(big=dict(seed, pair, permute_b)) (cached); every other case is
+    returned as it is.  Shape, numbers of stored entries, kind of values, overlap, stored orders, dtypes and the
+    scalar are all functions of the seed."""
+    if "big" not in case:
+        return case
+    key = repr(sorted((k, v) for k, v in case["big"].items() if k != "simplest"))
+    hit = _EXPANDED.get(key)
+    if hit is not None:
+        return hit
+    big = case["big"]
+    rng = random.Random(int(big["seed"]))
+    shape, (lo, hi) = BIG_SHAPES[rng.randrange(len(BIG_SHAPES))]
+    n = ref.prod(shape)
+    vk = rng.choice(["int", "int", "set", "half", "float"])
+    dt = rng.randrange(2)
+
+    def unravel(k):
+        out = []
+        for m in shape:
+            out.append(k % m)
+            k //= m
+        return out
+
+    na = min(rng.randint(lo, hi), n)
+    ca = rng.sample(range(n), na)
+    va = {k: _big_value(rng, vk) for k in ca}
+    out = dict(shape=list(shape))
+    ea = [(unravel(k), va[k]) for k in sorted(ca)]
+    out["a"] = _part(_stored(rng, ea))
+    if big.get("pair", True):
+        nb = min(rng.randint(lo, hi), n)
+        if rng.randrange(3):  # two times in three: enough entries for nnz(A) * nnz(B) * ndims to pass 2**22
+            nb = min(max(nb, int(1.1 * 2**22 / (na * len(shape))) + 1), hi)
+        # about half of the second operand's entries sit on entries of the first one
+        free = [k for k in range(n) if k not in va]
+        rest = rng.sample(free, min(len(free), nb // 2))
+        common = rng.sample(ca, min(len(ca), nb - len(rest)))
+        vb = {}
+        for k in common:
+            rel = rng.randrange(4)
+            vb[k] = va[k] if rel == 0 else (-va[k] if rel == 1 else _big_value(rng, vk))
+        for k in rest:
+            vb[k] = _big_value(rng, vk)
+        eb = [(unravel(k), vb[k]) for k in sorted(vb)]
+        out["b"] = _part(_stored(rng, eb) if big.get("permute_b", True) else eb)
+        if dt:
+            enum_dtype(rng, out["a"]), enum_dtype(rng, out["b"])
+    else:
+        how = rng.choice(["zero", "stored", "neg-stored", "other", "other"])
+        c = 0.0 if how == "zero" else rng.choice([-3.0, -1.0, 1.0, 3.0, 0.5, -0.5, 1.5])
+        if how in ("stored", "neg-stored") and ea:
+            c = ea[0][1] if how == "stored" else -ea[0][1]
+        out["c"], out["ckind"] = float(c), rng.choice(["float", "npfloat", "int"])
+        if dt:
+            enum_dtype(rng, out["a"])
+        if out["ckind"] == "int" and (not float(c).is_integer() or abs(c) > 10):
+            out["ckind"] = "float"
+    if len(_EXPANDED) > 16:
+        _EXPANDED.clear()
+    _EXPANDED[key] = out
+    return out
+
+
+def big_not_run(kind: str, case) -> Tuple[str, ...]:
+    if ref.prod(case["shape"]) > BIG_QUADRATIC_CELLS:
+        return BIG_QUADRATIC.get(kind, ())
+    return ()
+
+
+def alias_turn(case, i: int) -> bool:
+    """several live objects: which operator of a case gets the in-place-edit round (one of the thirteen, a fixed
+    function of the case so that every operator gets its turn over the cases); never for large cases (a subscript
+    assignment into a result with thousands of entries is quadratic in pyttb)"""
+    if ref.prod(case["shape"]) > 400:
+        return False
+    na, nb = len(case["a"]["subs"]), (len(case["b"]["subs"]) if "b" in case else int(abs(case["c"]) * 2))
+    if na == 0 or ("b" in case and nb == 0):
+        return True  # an empty operand is where an operation may hand back the other one: every operator
+    return (na + nb + i) % len(BINARY) == 0
+
+
+def check_alias(ctx, name: str, R, **operands) -> None:
+    """`<name>:<object>:changed-by:edit-of-<other>`: the result and the operands of an operation stay alive; each of
+    them in turn is edited in place through the public interface (S[subs] = v, T[...] = B) and every other one must
+    stay exactly what it was - a result may not be an operand, nor share its arrays"""
+    if R is None or not isinstance(R, (ttb.sptensor, ttb.tensor)):
+        return
+    live = Live(ctx, prefix=name + ":")
+    for k, X in operands.items():
+        if isinstance(X, (ttb.sptensor, ttb.tensor)):
+            live.keep(k, X)
+    live.keep("result", R)
+    live.edit_all()
+
+
+# --------------------------------------------------------------------------
+# round 3: modes longer than 2**31 / 2**53 / 2**60 and more than 2**63 cells.  Nothing can be expanded there; the
+# operators whose result is zero wherever both operands are zero (op(0, 0) == 0, op(0, c) == 0) stay sparse and are
+# judged entry by entry against the same NumPy operator applied to the stored values (Python-integer subscripts).
+# --------------------------------------------------------------------------
+
+
+def entries_of(S) -> Dict[Tuple[int, ...], float]:
+    """subscript -> value of the stored entries that are not zero (plain attribute reads)"""
+    if S.subs.size == 0:
+        return {}
+    subs = np.asarray(S.subs).reshape(-1, len(S.shape))
+    return {tuple(int(i) for i in r): float(v) for r, v in zip(subs, np.asarray(S.vals).reshape(-1)) if v != 0}
+
+
+def part_entries(part) -> Dict[Tuple[int, ...], float]:
+    return {tuple(int(i) for i in s_): float(v) for s_, v in zip(part["subs"], part["vals"])}
+
+
+def expected_local(name: str, ea: Dict, eb: Dict) -> Dict[Tuple[int, ...], float]:
+    out = {}
+    with np.errstate(all="ignore"):
+        for k in set(ea) | set(eb):
+            v = float(NP[name](np.float64(ea.get(k, 0.0)), np.float64(eb.get(k, 0.0))))
+            if v != 0:
+                out[k] = v
+    return out
+
+
+def check_huge_result(ctx, name: str, tagstr: str, R, shape, want: Dict, info="") -> None:
+    sfx = f" [{tagstr}]"
+    if not ctx.check(isinstance(R, ttb.sptensor), f"{name}:returns-sptensor{sfx}", type(R).__name__):
+        return
+    try:
+        rshape = tuple(int(n) for n in R.shape)
+    except Exception:  # noqa: BLE001
+        rshape = None
+    if not ctx.check(rshape == tuple(shape), f"{name}:shape{sfx}", f"{rshape} vs {tuple(shape)}"):
+        return
+    probs = ref.sptensor_problems(R, allow_explicit_zero=True)
+    if not ctx.check(not probs, f"{name}:wellformed({problem_kinds(probs)}){sfx}", f"{probs} {info}"):
+        return
+    got = entries_of(R)
+    bad = sorted(k for k in set(got) | set(want) if not (got.get(k) == want.get(k) or (
+        k in got and k in want and np.isnan(got[k]) and np.isnan(want[k]))))
+    ctx.check(not bad, f"{name}:values{sfx}",
+              f"{len(bad)} entries differ; first at {bad[:1]}: got {got.get(bad[0]) if bad else None} "
+              f"ref {want.get(bad[0]) if bad else None} {info}")
